@@ -94,8 +94,13 @@ def one_run(prop, batch, seed=None, choices=None, keep_choices=False):
     ch = core.Chooser(seed=seed) if choices is None else core.Chooser(replay=choices)
     cfg = dict(spec.get('cfg') or {})
     cfg.setdefault('prop', prop)
+    from sim import boot
+
+    nlog = len(boot.LOGS.records)
     res = world.run(ch, cfg)
     res['nchoices'] = len(ch.rec)
+    if os.environ.get('VERIF_SHOW_LOGS'):
+        res['logs'] = [list(r) for r in boot.LOGS.records[nlog:]][:200]
     if res.get('violations') or keep_choices:
         res['choices'] = ch.values()
     else:
